@@ -6,11 +6,17 @@ LEVEL = "exploration"
 COMPONENTS = base.COMPONENTS_EX
 RULE_TEXT = base.RULE_EX
 claims = base.prefix_claims(*"C11.,C04.kill_unjustified,C04.pool_over".split(","))
-make = base.ex_make("C11")
+def make(family, rng, tier):
+    from .. import exgen
+    if family == "hair":
+        return exgen.gen_hair(rng, PROP, tier)
+    return exgen.gen(rng, PROP, tier)
+
+
 execute = base.ex_execute
 prepare_replay = base.ex_prepare_replay
 sample = base.ex_sample
 
 
 def plan(tier):
-    return [("ex", 3000 if tier == "quick" else 50000)]
+    return [("ex", 3000 if tier == "quick" else 50000), ("hair", 80 if tier == "quick" else 2000)]
